@@ -259,10 +259,12 @@ def exact_spline_integral(sp, coeffs):
     return sum(c * i for c, i in zip(coeffs, I)), sum(abs(c) * abs(i) for c, i in zip(coeffs, I))
 
 
-def real_interpolant(sp, u, dtype=float):
+def real_interpolant(sp, u, dtype=float, spelling=None):
+    """`spelling`: how the caller names the complex element type (complex, np.complex128, np.dtype(complex), 'complex128', the dtype
+    of the data): all mean the same interpolator (finding F19)"""
     from pygyro.splines.splines import Spline1D
     from pygyro.splines.spline_interpolators import SplineInterpolator1D
-    itp = SplineInterpolator1D(sp.basis, dtype) if dtype is complex else SplineInterpolator1D(sp.basis)
+    itp = SplineInterpolator1D(sp.basis, dtype if spelling is None else spelling) if dtype is complex else SplineInterpolator1D(sp.basis)
     spl = Spline1D(sp.basis, dtype) if dtype is complex else Spline1D(sp.basis)
     itp.compute_interpolant(u, spl)
     return itp, spl
@@ -556,7 +558,9 @@ def complex_1d(chk, drv):
                 # complex one (quasi-neutrality solver) is built
                 real_interpolant(sp, ur, float)
                 case['real_interpolator_built_first'] = True
-            itp, spl = real_interpolant(sp, u, complex)
+            spelling = [complex, np.complex128, np.dtype(complex), 'complex128', u.dtype, np.dtype('complex128').type][it % 6]
+            case['dtype_given_as'] = repr(spelling)
+            itp, spl = real_interpolant(sp, u, complex, spelling)
         except Exception as e:  # noqa: BLE001
             chk.fail('C08:complex-raises', 'complex interpolation raised %s: %s' % (type(e).__name__, e), case)
             continue
